@@ -364,7 +364,8 @@ class Spec:
         return [('ul', (x,)), ('ul', (y, x, y)), ('ut', (x, y)), ('ug', (y, y, x)), ('us', (x, y, x)),
                 ('md', ((x, 2),)), ('md', ((y, 1), (x, 3))), ('md', ((x, 0), (y, 2))),
                 ('mc', ((x, 2), (y, 1))), ('mp', ((y, 2),)), ('mu', ((x, 1), (y, 2))),
-                ('kw', (), ((x, 2),)), ('kw', (x,), ((y, 1), (x, 1))), ('mkw', ((x, 1),), ((y, 2),))]
+                ('kw', (), ((x, 2),)), ('kw', (x,), ((y, 1), (x, 1))), ('mkw', ((x, 1),), ((y, 2),)),
+                ('mkw', ((x, 3), (y, 1)), ((x, 2),))]     # the same key in the mapping and in the keyword counts
 
     # -- exploration ------------------------------------------------------------------------------------
     def expand(self, hist):
